@@ -86,6 +86,13 @@ def r_shutdown_api(e, R):
                             f"`{norm(x)}` is read before flag_as_shutting_down(): a submit() running concurrently holds the shutdown lock until it "
                             "has started the manager thread, so this read can miss that thread; shutdown(wait=True) then returns while the "
                             "accepted task is still pending and the workers are alive", e.loc(f, x))
+    # the public defaults: shutdown() waits and does not kill (concurrent.futures contract: shutdown(wait=True))
+    dflt = dict(zip(f.node.args.args[len(f.node.args.args) - len(f.node.args.defaults):], f.node.args.defaults))
+    got = {a_.arg: (d_.value if isinstance(d_, ast.Constant) else "?") for a_, d_ in dflt.items()}
+    kwp_ = f.params[2] if len(f.params) > 2 else None
+    R.check(got.get(wait_param) is True and got.get(kwp_) is False, "R-SHUTDOWN-API", "shutdown(wait=True, kill_workers=False) are the defaults", f.short,
+            f"defaults {got}", f"shutdown() defaults are {got}: a plain shutdown() / `with executor:` no longer waits for the submitted work, or kills the workers "
+            "and fails every pending future", e.loc(f, f.node)) if wait_param else None
     # submit after shutdown raises ShutdownExecutorError
     bt, st, sg = submit_gate(e)
     if st is not None:
@@ -393,6 +400,12 @@ def r_exit_handshake(e, R):
     popn = cfg_nodes(e, f, popc)
     R.check(all(e.token_in(held[n], a.pml) for n in popn), "R-EXIT-HANDSHAKE", f"{f.short}: worker removed from the table under the management lock",
             f.short, norm(popc), "the announced worker is removed from the table without the processes management lock", e.loc(f, popc))
+    pidp = f.params[1] if len(f.params) > 1 else None
+    R.check(bool(popc.args) and isinstance(popc.args[0], ast.Name) and popc.args[0].id == pidp and
+            (len(popc.args) == 1 or (isinstance(popc.args[1], ast.Constant) and popc.args[1].value is None)), "R-EXIT-HANDSHAKE",
+            f"{f.short}: the worker removed from the table is the one whose pid was announced (absent -> None)", f.short, norm(popc),
+            "the table is not popped under the announced pid (arguments swapped / another key): the manager releases and joins something that is not a "
+            "worker (AttributeError kills the manager thread) while the announced worker waits for its exit lock", e.loc(f, popc))
     st = stmt_of(e, f, popc)
     var = st.targets[0].id if isinstance(st, ast.Assign) and isinstance(st.targets[0], ast.Name) else None
     rel = [n for n in g.nodes for c in calls_in(n) if e.receiver_objs(f, c, ("release",)) & a.exit_locks
